@@ -234,7 +234,7 @@ def main():
             cat, text, note, tech, ref = CHECKS[pid]
             checks.append(dict(property_id=pid, quick_cmd=f"./check {pid} --tier quick", thorough_cmd=f"./check {pid} --tier thorough",
                                evidence_file=f"evidence/{pid}.json", replay_cmd_template="./check --replay {path}", engine="pyvc",
-                               level_claimed=dict(category=cat, text=text, design_ref=f"DESIGN.md section {ref}"),
+                               level_claimed=dict(category=cat, text=text, design_ref=f"DESIGN.md section {ref} (plan) and sections 8.8, 8.9 (as built)"),
                                level_note=note, technique=tech))
         else:
             na.append(dict(property_id=pid, reason=NOT_YET.get(pid, "contracts for this property are not built yet (work in progress); "
@@ -247,7 +247,9 @@ def main():
                                           "side-car contracts and loop invariants; obligations discharged by z3 4.8.12 / z3 5.1.0 / cvc5 1.0.3 (CLI, hard time-outs); "
                                           "counter-models replayed on the real code")],
              checks=checks, not_applicable=na,
-             notes="See DESIGN.md. fix: commits in /repo are listed in known_findings.json as 'fixed'.")
+             notes="See DESIGN.md (section 8 = as built). Genuine defects: known_findings.json and known_findings.d/*.json (status 'fixed' with the "
+                   "/repo commit, or 'known' with predicate and witness; never written at run time). Seeded changes and what catches them: "
+                   "seeded/*/meta.json and DESIGN.md 8.7. After an engine change run tools/runall.sh.")
     json.dump(m, open(os.path.join(HERE, 'MANIFEST.json'), 'w'), indent=1)
     print("checks:", [c['property_id'] for c in checks], "n/a:", len(na))
 
